@@ -21,6 +21,9 @@ def rule_hash_wiring(fx, rep):
     if not impls:
         return
     meths = {it['name']: it['def'] for it in impls[0]['items']}
+    import exp
+    import inline as INL
+    from exp import Agg, Int, Ref, TOP
     for name, count, mapfn in (('hash_to_curve', 2, 'map2_to_curve'), ('encode_to_curve', 1, 'map_to_curve')):
         p = meths.get(name)
         b = fx.body(p) if p else None
@@ -29,38 +32,55 @@ def rule_hash_wiring(fx, rep):
             continue
         rep.fn(p)
         where = fx.fn(p)['span']
-        o = Origin(b)
-        t = o.local(0)
-        rep.sites(len(list(b.calls())))
-        ok = t[0] == 'call' and t[1].get('trait') == 'map_to_curve::MapToCurve' and t[1].get('name') == mapfn and len(t[2]) == count
-        if not ok:
-            rep.fail('WIRE', '%s:map-call' % name, 'result is %s, expected MapToCurve::%s of %d field elements' % (term_str(t), mapfn, count), where, construct=p)
+        calls = []
+
+        def val(fr, op):
+            v = fr.deref_operand(op)
+            for _ in range(6):
+                if isinstance(v, Ref):
+                    v = fr._project(fr.store.get(v.root, TOP), v.proj)
+            return v
+
+        def tr(I, fr, t, c, pth):
+            nm = c.get('name')
+            r_ = c.get('res') or c['def']
+            if nm == 'as_ref' and c.get('trait') == 'std::convert::AsRef':
+                fr.storev(t['dest'], val(fr, t['args'][0]))
+                return True
+            if r_ == 'hash_to_field::hash_to_field' and len(t['args']) == 3:
+                n_ = fr.operand(t['args'][2])
+                calls.append(('h2f', val(fr, t['args'][0]), val(fr, t['args'][1]), n_.v if isinstance(n_, Int) else None, tuple(c.get('res_targs') or c.get('targs') or [])))
+                k_ = len([x for x in calls if x[0] == 'h2f'])
+                fr.storev(t['dest'], Agg([('u', k_, j_) for j_ in range(n_.v)], ('vec', 'Vec')) if isinstance(n_, Int) and n_.v <= 8 else TOP)
+                return True
+            if c.get('trait') == 'map_to_curve::MapToCurve' and nm in ('map_to_curve', 'map2_to_curve'):
+                calls.append((nm, tuple(val(fr, a_) for a_ in t['args']), tuple(c.get('targs') or [])))
+                fr.storev(t['dest'], ('mapped', len(calls)))
+                return True
+            return False
+        I = exp.Interp(fx, 'none', extra_transfer=tr, inline=lambda q: INL.is_private_helper(fx, q))
+        I.fork_inlined = True
+        try:
+            res = I.run(p, ['MSG', 'DST'])
+        except (exp.NotDerivable, exp.Budget) as e:
+            rep.fail('WIRE', '%s:map-call' % name, 'not derivable: %s' % e, where, construct=p)
             continue
-        targs = t[1].get('targs') or []
-        rep.check(targs[:2] == ['PtT', 'PtT'], 'WIRE', '%s:map-type' % name, 'maps into the hashed-to group itself', 'map call instantiated at %s' % targs, where)
-        idxs = []
-        srcs = []
-        for a in t[2]:
-            x = strip(a)
-            good = x[0] == 'call' and x[1].get('name') == 'index' and len(x[2]) == 2
-            if not good:
-                idxs.append(None)
-                continue
-            idxs.append(const_int_term(x[2][1]))
-            srcs.append(strip(x[2][0]))
-        rep.check(idxs == list(range(count)), 'WIRE', '%s:elements' % name, 'passes field elements %s (distinct, in order)' % list(range(count)),
-                  'passes elements with indices %s, expected %s (each hashed element must be used exactly once)' % (idxs, list(range(count))), where, construct=p)
-        ok = bool(srcs) and all(s == srcs[0] for s in srcs) and srcs[0][0] == 'call' and (srcs[0][1].get('res') or srcs[0][1]['def']) == 'hash_to_field::hash_to_field'
-        if ok:
-            h = srcs[0]
-            hargs = h[2]
-            ok = strip(hargs[0]) == ('param', 1) and strip(hargs[1]) == ('param', 2) and const_int_term(hargs[2]) == count
-            ht = h[1].get('targs') or []
-            ok = ok and len(ht) == 2 and ht[0] == '<PtT as CurveProjective>::Base' and ht[1] == 'X'
-            rep.check(ok, 'WIRE', '%s:hash_to_field-call' % name, 'hash_to_field::<Base, X>(msg, dst, %d)' % count,
-                      'hash_to_field is called as %s with type arguments %s' % (term_str(h), ht), where, construct=p)
-        else:
-            rep.fail('WIRE', '%s:hash_to_field-call' % name, 'the mapped elements do not come from one hash_to_field call', where, construct=p)
+        rep.sites(I.call_sites)
+        res = [r for r in res if not (isinstance(r[1], tuple) and r[1] and r[1][0] == 'diverges')]
+        h = [x for x in calls if x[0] == 'h2f']
+        m = [x for x in calls if x[0] != 'h2f']
+        ok = len(res) == 1 and len(m) == 1 and m[0][0] == mapfn and res[0][1] == ('mapped', len(calls))
+        rep.check(ok, 'WIRE', '%s:map-call' % name, 'returns MapToCurve::%s of %d field elements' % (mapfn, count),
+                  'calls %s and returns %r' % ([x[0] for x in calls], [r[1] for r in res]), where, construct=p)
+        if not ok:
+            continue
+        rep.check(list(m[0][2][:2]) == ['PtT', 'PtT'], 'WIRE', '%s:map-type' % name, 'maps into the hashed-to group itself', 'map call instantiated at %s' % (m[0][2],), where)
+        want_elems = tuple(('u', 1, j_) for j_ in range(count))
+        rep.check(m[0][1] == want_elems, 'WIRE', '%s:elements' % name, 'passes field elements %s of one hash_to_field result (distinct, in order)' % list(range(count)),
+                  'passes %r, expected elements %s of the hash_to_field output (each hashed element must be used exactly once)' % (m[0][1], list(range(count))), where, construct=p)
+        okh = len(h) == 1 and h[0][1] == 'MSG' and h[0][2] == 'DST' and h[0][3] == count and len(h[0][4]) == 2 and h[0][4][0] == '<PtT as CurveProjective>::Base' and h[0][4][1] == 'X'
+        rep.check(okh, 'WIRE', '%s:hash_to_field-call' % name, 'hash_to_field::<Base, X>(msg, dst, %d)' % count,
+                  'hash_to_field is called as %r' % (h,), where, construct=p)
 
 
 def rules(fx, rep):
